@@ -612,19 +612,151 @@ def extract_defaults(repo=None):
     return pyexpr.const(found["Unit.iteration_precision"]), mi
 
 
+# ---- the roll-pass class family: who defines `get_root_hook_results` / `reevaluate_cache`, in which order they are found ----
+
+FAMILY_FILES = ["roll_pass/base.py", "roll_pass/symmetric_roll_pass.py", "roll_pass/two_roll_pass.py",
+                "roll_pass/three_roll_pass.py", "roll_pass/deformation_unit.py", "disk_elements/disk_element_unit.py",
+                UNIT, "roll/roll.py", HOOKS]
+PASS_CLASSES = ["TwoRollPass", "ThreeRollPass"]     # the concrete unit classes with a roll
+ROLL_ATTR = "roll"
+
+
+def _top_classes(tree):
+    return [n for n in tree.body if isinstance(n, ast.ClassDef)]
+
+
+def _aliases(tree):
+    """`from x import A as B` -> {B: A}"""
+    out = {}
+    for n in tree.body:
+        if isinstance(n, ast.ImportFrom):
+            for a in n.names:
+                if a.asname:
+                    out[a.asname] = a.name
+    return out
+
+
+def _methods_of(cls):
+    return {f.name: f for f in cls.body if isinstance(f, ast.FunctionDef)}
+
+
+def extract_host_reevaluate(fn):
+    """`HookHost.reevaluate_cache`: every cached entry is re-evaluated in place (`self.__cache__[n] = hook.get_result(self)`)"""
+    self_name = fn.args.args[0].arg
+    st = _stmts(fn)
+    if len(st) == 1 and isinstance(st[0], ast.For) and not st[0].orelse and _name(st[0].target):
+        n = st[0].target.id
+        srcs = {_path(x) for x in ast.walk(st[0].iter) if isinstance(x, ast.Attribute)}
+        stores = [b for b in st[0].body if isinstance(b, ast.Assign) and len(b.targets) == 1
+                  and isinstance(b.targets[0], ast.Subscript) and _path(b.targets[0].value) == f"{self_name}.__cache__"
+                  and _name(b.targets[0].slice) == n and isinstance(b.value, ast.Call)
+                  and isinstance(b.value.func, ast.Attribute) and b.value.func.attr == "get_result"
+                  and [_name(a) for a in b.value.args] == [self_name]]
+        others = [b for b in st[0].body if b not in stores and not (isinstance(b, ast.Assign) and _name(b.targets[0]))]
+        if f"{self_name}.__cache__" in srcs and len(stores) == 1 and not others:
+            return ["reevaluate-cached"]
+    raise Untranslatable("HookHost.reevaluate_cache: not `for n in <keys of self.__cache__>: self.__cache__[n] = hook.get_result(self)`")
+
+
+def _c3(name, bases_of, memo):
+    """C3 linearisation (python's MRO) over the classes of `bases_of`; bases that are not in the table are left out"""
+    if name in memo:
+        return memo[name]
+    seqs = [list(_c3(b, bases_of, memo)) for b in bases_of[name] if b in bases_of] + [[b for b in bases_of[name] if b in bases_of]]
+    out = [name]
+    while any(seqs):
+        for sq in seqs:
+            if sq and not any(sq[0] in other[1:] for other in seqs):
+                head = sq[0]
+                break
+        else:
+            raise Untranslatable(f"inconsistent class hierarchy at {name}")
+        out.append(head)
+        seqs = [[c for c in sq if c != head] for sq in seqs]
+    memo[name] = out
+    return out
+
+
+def extract_family(repo=None):
+    """-> dict(class_bases, mro, result_methods, eval_methods, cache_methods): the classes a roll pass and its roll are built
+    from (top-level classes of FAMILY_FILES and the nested `Roll` classes), their bases as written, the linearisations of the
+    concrete pass classes and of their `Roll` classes, and EVERY definition of `get_root_hook_results` / `reevaluate_cache`
+    found in them (in the order of FAMILY_FILES)"""
+    bases_of, defs = {}, {}
+    order = []
+    for rel in FAMILY_FILES:
+        tree = _parse(rel, repo)
+        alias = _aliases(tree)
+        for cls in _top_classes(tree):
+            todo = [(cls.name, cls)] + [(f"{cls.name}.{n.name}", n) for n in cls.body
+                                        if isinstance(n, ast.ClassDef) and n.name == "Roll"]
+            for qual, node in todo:
+                bs = []
+                for b in node.bases:
+                    pth = pyexpr.attr_path(b)
+                    if not pth:
+                        bs.append("?")            # (e.g. `Generic[T]`; refused below if such a class belongs to the family)
+                        continue
+                    pth = [alias.get(pth[0], pth[0])] + list(pth[1:])
+                    bs.append(".".join(pth))
+                if qual in bases_of:
+                    raise Untranslatable(f"class {qual} defined twice")
+                bases_of[qual] = bs
+                defs[qual] = _methods_of(node)
+                order.append(qual)
+    for c in PASS_CLASSES:
+        if c not in bases_of or f"{c}.Roll" not in bases_of:
+            raise Untranslatable(f"class {c} / {c}.Roll not found")
+    # `self.roll = self.Roll(...)`: the attribute holds an instance of the nested `Roll` class of the pass's own class
+    init = defs.get("SymmetricRollPass", {}).get("__init__")
+    ok = False
+    if init is not None:
+        sn = init.args.args[0].arg
+        for n in ast.walk(init):
+            if isinstance(n, ast.Assign) and len(n.targets) == 1 and _path(n.targets[0]) == f"{sn}.{ROLL_ATTR}" \
+                    and _call_path(n.value) == f"{sn}.Roll":
+                ok = True
+    if not ok:
+        raise Untranslatable("SymmetricRollPass.__init__ does not bind self.roll = self.Roll(...)")
+    memo = {}
+    mro = [(c, _c3(c, bases_of, memo)) for c in PASS_CLASSES + [f"{c}.Roll" for c in PASS_CLASSES]]
+    used = []
+    for _, chain in mro:
+        for c in chain:
+            if c not in used:
+                used.append(c)
+    used = [c for c in order if c in used]
+    for c in used:
+        if "?" in bases_of[c]:
+            raise Untranslatable(f"class {c}: a base that is not a (dotted) name")
+    result_methods, eval_methods, cache_methods = [], [], []
+    for c in used:
+        m = defs[c]
+        if "get_root_hook_results" in m:
+            ev, cc = extract_results(m["get_root_hook_results"])
+            result_methods.append((c, cc))
+            eval_methods.append((c, ev))
+        if "reevaluate_cache" in m:
+            cache_methods.append((c, extract_host_reevaluate(m["reevaluate_cache"]) if c == "HookHost"
+                                  else extract_cache_override(m["reevaluate_cache"])))
+        if "evaluate_and_set_hooks" in m and c != "HookHost":
+            raise Untranslatable(f"{c} overrides evaluate_and_set_hooks")
+    return {"class_bases": [(c, bases_of[c]) for c in used], "mro": mro, "result_methods": result_methods,
+            "eval_methods": eval_methods, "cache_methods": cache_methods}
+
+
 def extract(repo=None):
     unit = _class(_parse(UNIT, repo), "Unit")
     info = extract_solve(_method(unit, "solve"))
     info["old_init"] = extract_old_init(_method(unit, "__init__"), info["old_attr"])
     info["init_roles"], info["out_profile"] = extract_init_solve(_method(unit, "init_solve"))
     info["eval_order"], info["concat_order"] = extract_results(_method(unit, "get_root_hook_results"))
-    info["result_overrides"] = []
-    for cls, rel in RESULT_OVERRIDES:
-        _, concat = extract_results(_method(_class(_parse(rel, repo), cls), "get_root_hook_results"))
-        info["result_overrides"].append((cls, concat))
-    info["cache_overrides"] = []
-    for cls, rel in CACHE_OVERRIDES:
-        info["cache_overrides"].append((cls, extract_cache_override(_method(_class(_parse(rel, repo), cls), "reevaluate_cache"))))
+    fam = extract_family(repo)
+    info["family"] = fam
+    # overrides = every definition found in the family besides the base ones (`Unit.get_root_hook_results`,
+    # `HookHost.reevaluate_cache`); on the tree the model was written for these are RESULT_OVERRIDES / CACHE_OVERRIDES
+    info["result_overrides"] = [(c, r) for c, r in fam["result_methods"] if c != "Unit"]
+    info["cache_overrides"] = [(c, r) for c, r in fam["cache_methods"] if c != "HookHost"]
     info["subunits"], info["sub_catch"], info["sub_raise"] = extract_subunits(_method(unit, "_solve_subunits"))
     info["marks"] = extract_marks(_method(_class(_parse(HOOKS, repo), "HookFunction"), "__call__"))
     info["default_prec"], info["default_max_iter"] = extract_defaults(repo)
@@ -690,9 +822,14 @@ def emit(ctx, repo=None):
         lines += [f"def loop_shape : Solve.Shape :=\n    {UNRECOGNISED}", "def range_start : Int := 0",
                   "def range_stop_offset : Int := 0", "def test_lhs_e : Expr := .var \"<unrecognised>\"",
                   "def test_rhs_e : Expr := .var \"<unrecognised>\"", "def test_op : Solve.Cmp := .gt",
-                  "def default_prec_e : Expr := .var \"<unrecognised>\"", "def default_max_iter : Nat := 0"]
+                  "def default_prec_e : Expr := .var \"<unrecognised>\"", "def default_max_iter : Nat := 0",
+                  "def class_bases : List (String × List String) := []", "def mro : List (String × List String) := []",
+                  "def result_methods : List (String × List String) := []",
+                  "def eval_methods : List (String × List String) := []",
+                  "def cache_methods : List (String × List String) := []"]
     else:
         t = info["test"]
+        fam = info["family"]
         lines += ["/-- pyroll/core/unit/unit.py `Unit.solve`, `Unit.__init__`, `Unit.init_solve`, `Unit.get_root_hook_results`,",
                   "    `Unit._solve_subunits`; overrides in roll_pass/{base,symmetric_roll_pass,two_roll_pass}.py, roll/roll.py;",
                   "    hooks.py `HookFunction.__call__` -/",
@@ -706,10 +843,21 @@ def emit(ctx, repo=None):
                   f"def test_op : Solve.Cmp := .{t['op']}", "",
                   "/-- unit/hookimpls.py defaults through config.py -/",
                   f"def default_prec_e : Expr := {pyexpr.lean_expr(info['default_prec'])}",
-                  f"def default_max_iter : Nat := {info['default_max_iter']}"]
+                  f"def default_max_iter : Nat := {info['default_max_iter']}", "",
+                  "/-- the classes a roll pass (`TwoRollPass`, `ThreeRollPass`) and its roll (`self.roll = self.Roll(…)`, the nested",
+                  "    `Roll` class) are built from - roll_pass/*.py, disk_elements/disk_element_unit.py, unit/unit.py, roll/roll.py,",
+                  "    hooks.py - with their bases as written in the `class` statements -/",
+                  f"def class_bases : List (String × List String) :=\n    {_pairs(fam['class_bases'])}",
+                  "/-- python's method resolution order (C3 linearisation of `class_bases`; compared with `cls.__mro__` on every run) -/",
+                  f"def mro : List (String × List String) :=\n    {_pairs(fam['mro'])}",
+                  "/-- EVERY definition of `get_root_hook_results` in these classes: concatenation order / evaluation order -/",
+                  f"def result_methods : List (String × List String) := {_pairs(fam['result_methods'])}",
+                  f"def eval_methods : List (String × List String) := {_pairs(fam['eval_methods'])}",
+                  "/-- EVERY definition of `reevaluate_cache` in these classes: statement roles -/",
+                  f"def cache_methods : List (String × List String) :=\n    {_pairs(fam['cache_methods'])}"]
     lines += ["", "def table : List (String × Expr) := [(\"test_lhs_e\", test_lhs_e), (\"test_rhs_e\", test_rhs_e), "
               "(\"default_prec_e\", default_prec_e)]", "", "end Gen.C05"]
     text = "\n".join(lines) + "\n"
     changed = pyexpr.write_if_changed(os.path.join(LEAN_DIR, "PyrollModel", "Gen", "C05.lean"), text)
-    ctx.notes.setdefault("generated", {})["Gen/C05.lean"] = {"defs": 9, "rewritten": changed}
+    ctx.notes.setdefault("generated", {})["Gen/C05.lean"] = {"defs": 14, "rewritten": changed}
     return info
